@@ -7,12 +7,11 @@ from props.C04 import common
 def run(ctx):
     common(ctx)
     ctx.add_trusted('T4 float_as_real for the Verus unit osc (phase arithmetic over exact reals; R-frem: f64 `%` is the real '
-                    'modulus; sin assumed to be the sine with |sin| <= 1); the range of the wrapped phase is ALSO proved '
-                    'bit-precisely by Kani (c17_phase_wrap_bits) from every phase state')
-    ctx.add_trusted('Kani 0.68 / CBMC 6.11 bit-precise u64 / f64 semantics for the noise, phase-wrap, saw and square harnesses')
+                    'modulus; sin assumed to be the sine with |sin| <= 1). The wrapped phase is decided ONLY there: Kani 0.68 / CBMC 6.11 '
+                    'evaluates the f64 `%` operator to 0.0 for every operand (measured), so no Kani harness is relied on for anything '
+                    'downstream of a wrap')
+    ctx.add_trusted('Kani 0.68 / CBMC 6.11 bit-precise u64 / f64 semantics for the noise, step, saw and square harnesses')
     ctx.add_assumption('hook Phase::verif_from_parts (cfg rustaudio_dasp_verif) is used to start from an arbitrary phase state')
-    ctx.add_assumption('precondition of the phase-wrap harness: step >= 0 finite and phase + step finite (an infinite sum gives NaN: '
-                       'hz/rate overflowing f64 is outside any meaningful reading of "advances by frequency/rate")')
     ctx.add_assumption('float-level reading of "advances by frequency/rate": the step is the correctly rounded f64 quotient (Kani '
                        'c17_step_bits_*: concrete rates 49 / 44100 — a symbolic f64 divisor does not finish in CBMC — and every finite '
                        'non-negative f32-valued frequency; full f64 frequencies in the thorough tier); other rates rest on the Verus proof over reals')
